@@ -80,9 +80,16 @@ def load_ns(name: str) -> dict:
 
 
 def fresh_ns(name: str, tag: str = '') -> dict:
-    import runpy
+    # the workload module executed once more under another name (new Function objects with old names);
+    # it stays in sys.modules so that functions its helpers define later can still find their source
+    import importlib.util
     path = os.path.join(WL_DIR, WL_FILES[name])
-    return runpy.run_path(path, run_name=f'c18wl_{name}_re{tag}')
+    modname = f'c18wl_{name}_re{tag}'
+    spec = importlib.util.spec_from_file_location(modname, path)
+    mod = importlib.util.module_from_spec(spec)
+    sys.modules[modname] = mod
+    spec.loader.exec_module(mod)
+    return mod.__dict__
 
 
 def ctx_of(ns: dict, cname):
